@@ -13,6 +13,7 @@ import RapidProofs.PruneCustom
 import RapidProofs.TranslatedEq
 import RapidProofs.TranslatedDataEq
 import RapidProofs.TranslatedRecEq
+import RapidProofs.TranslatedFindEq
 
 namespace Rapid.C04
 
@@ -135,6 +136,13 @@ theorem source_recording_of_run (p : Prog) (src : Src) (ts : TS)
     srcRecGo (p.run src ts).toks [] [] [] =
       some ((recOfToks (p.run src ts).toks).data, (recOfToks (p.run src ts).toks).groups.map goOf) :=
   srcRecGo_of_run p src ts hd hg
+
+/-- **every draw of every generator is recorded as the model says**: `Generator.value` of /repo (translated) wraps what the
+    implementation draws in a standalone group labelled with the generator's `String()` — the model's `wrapValue`, which
+    the theorems about replay, pruning and the passes of the shrinker build on -/
+theorem source_generator_value (fe : Go.FEval) (W : Prog) (str : Option String) (fuel : Nat) (k : Val → Prog) :
+    RunEq (Translated.Generator_value fe (fun k' => W >>- k') str fuel k) ((wrapValue (str.getD "") W) >>- k) :=
+  tr_generator_value fe W str fuel k
 
 /-- a recording made from the PRNG replays from a buffer (the PRNG never overruns) -/
 theorem words_are_masked (s s' : Src) (n : Nat) (u : UInt64) (h : s.next n = some (u, s')) : mask n u = u :=
